@@ -253,12 +253,29 @@ func (h *hb) access(tid int, p interface{}, write bool, site string) {
 	if h.off != "" || h.race != "" {
 		return
 	}
+	// the variable's identity: the map itself for a map (a struct copied by
+	// value shares it), the address otherwise
 	v := reflect.ValueOf(p)
-	if v.Kind() != reflect.Ptr || v.IsNil() {
+	var ptr uintptr
+	switch v.Kind() {
+	case reflect.Map:
+		if v.IsNil() {
+			return
+		}
+		ptr = v.Pointer()
+	case reflect.Ptr:
+		if v.IsNil() {
+			return
+		}
+		if e := v.Elem(); e.Kind() == reflect.Map && !e.IsNil() {
+			ptr = e.Pointer()
+		} else {
+			ptr = v.Pointer()
+		}
+	default:
 		return
 	}
 	h.accesses++
-	ptr := v.Pointer()
 	l, ok := h.locs[ptr]
 	if !ok {
 		l = &location{keep: p, reads: map[int]access{}}
